@@ -638,14 +638,21 @@ def _calls(method):
         for k in (0, 1, -1):
             yield "npts%+d weights" % k, (lambda c, k=k: setattr(c, "weights", [F(2)] * (c.npts + k))), (lambda b, c: len(c.weights) == c.npts)
         yield "None", (lambda c: setattr(c, "weights", None)), (lambda b, c: c.weights is None)
+    elif method in ("knot_clean", "degree_clean", "clean"):
+        for tol in (1e-9, 0, 10, -1):
+            yield repr(tol), (lambda c, tol=tol: getattr(c, method)(tol)), (lambda b, c: c.npts + c.degree <= b[0] + b[1])
     elif method == "apply":
         from compmec.nurbs import heavy
         for nodes in ([F(1)], [F(2), F(2)], [F(1, 2), F(5, 2)]):
             def f(c, nodes=nodes):
                 old = tuple(c.knotvector)
-                new = tuple(c.knotvector + nodes)
-                c.apply(new, heavy.Operations.knot_insert(old, tuple(nodes)))
-            yield "insertion matrix of %r" % (nodes,), f, (lambda b, c, nodes=nodes: c.npts == b[0] + len(nodes))
+                try:
+                    new = tuple(c.knotvector + nodes)
+                    T = heavy.Operations.knot_insert(old, tuple(nodes))
+                except Exception:
+                    return          # not a legal insertion for this start curve: nothing to apply
+                c.apply(new, T)
+            yield "insertion matrix of %r" % (nodes,), f, (lambda b, c, nodes=nodes: c.npts in (b[0], b[0] + len(nodes)))
 
 
 def concrete_search(method, P, W, allowed):
@@ -852,4 +859,132 @@ _new += [(degree_setter_contract(P, W), "curves", "BaseCurve.degree", "degree.se
 for _c, _m, _q, _v in _new:
     mm = _re.search(r"P=(\d),W=(\d)", _c.name)
     _attach(_c, (_v or _q).split(".")[-2] if _v else _q.split(".")[-1], int(mm.group(1)), int(mm.group(2)))
+ALL += _new
+
+
+# ---- knot_clean, degree_clean: loops that call a mutator until it refuses --------------------------------------------------------
+def h_knot_remove_call(eng, st, args, kw, node, exits):
+    """self.knot_remove(nodes, tolerance) by the contract proved as knot_remove_contract: ValueError with the curve unchanged, or INV and
+    npts + degree smaller by len(nodes)."""
+    c, nodes = args[0], args[1]
+    if isinstance(nodes, Tup):
+        k = len(nodes.items)
+    elif isinstance(nodes, Seq):
+        k = nodes.n
+    else:
+        raise E.Unsupported("knot_remove(%r)" % (nodes,))
+    eng.raise_exc(st, "ValueError", E.fresh("removal_refused", z3.BoolSort()), node.lineno, exits)
+    old = c.fields[KVF]
+    d, n = fresh_int("deg_after_removal"), fresh_int("npts_after_removal")
+    st.assume(n + d == old.fields["npts"].z + old.fields["degree"].z - k)
+    c.fields[KVF] = new_kvobj(st, "removed", n, d)
+    for f, tag in ((PF, "points"), (WF_, "weights")):
+        if isinstance(c.fields[f], Seq):
+            s = E.fresh_seq(tag)
+            st.assume(s.n == n)
+            c.fields[f] = s
+    return NoneV()
+
+
+def h_set_of(eng, st, args, kw, node, exits):
+    """set(x): an abstract finite set (only its size is kept: at most len(x) elements)."""
+    v = args[0]
+    n = fresh_int("set_size")
+    if isinstance(v, Tup):
+        st.assume(z3.And(n >= 0, n <= len(v.items)))
+    elif isinstance(v, Seq):
+        st.assume(z3.And(n >= 0, n <= v.n))
+    else:
+        raise E.Unsupported("set(%r)" % (v,))
+    return Obj("AbsSet", {"n": Num(n, True)})
+
+
+def h_set_minus(eng, st, args, kw, node, exits):
+    a = args[0]
+    n = fresh_int("set_size")
+    st.assume(z3.And(n >= 0, n <= a.fields["n"].z))
+    return Obj("AbsSet", {"n": Num(n, True)})
+
+
+def h_tuple_any2(eng, st, args, kw, node, exits):
+    v = args[0]
+    if isinstance(v, Obj) and v.cls == "AbsSet":
+        s = E.fresh_seq("elements")
+        st.assume(s.n == v.fields["n"].z)
+        return s
+    return h_tuple_any(eng, st, args, kw, node, exits)
+
+
+CLEAN_CALLS = dict(MUT2_CALLS)
+CLEAN_CALLS.update({"method:BaseCurve.knot_remove": CallSpec(h_knot_remove_call), "func:set": CallSpec(h_set_of),
+                    "binop:Sub:AbsSet": CallSpec(h_set_minus), "func:tuple": CallSpec(h_tuple_any2)})
+# invariant of both loops: the curve keeps INV, its kind (points / weights present) and its knot vector stays a knot vector (npts > degree >= 0)
+CLEAN_INV = ["INV(self)", "deg(self) >= 0 and npts(self) >= deg(self) + 1", "npts(self) + deg(self) <= old(npts(self)) + old(deg(self))",
+             "iff(is_none(P(self)), is_none(old(P(self))))", "iff(is_none(W(self)), is_none(old(W(self))))"]
+
+
+def knot_clean_contract(P, W):
+    return Contract(
+        "curves.Curve.knot_clean[P=%d,W=%d]" % (P, W), setup=curve_state(P, W),
+        params={"self": "obj:BaseCurve", "tolerance": "real", "nodes": "none"}, spec=CSPEC, calls=CLEAN_CALLS,
+        loops={0: dict(invariant=["0 <= it0 and it0 <= len_it0"] + CLEAN_INV, decreases="len_it0 - it0"),
+               1: dict(invariant=CLEAN_INV, decreases="npts(self) + deg(self)")},          # each successful removal lowers npts + degree: the inner loop terminates
+        ensures=["INV(self)", "npts(self) + deg(self) <= old(npts(self)) + old(deg(self))"],
+        raises={"AssertionError": "tolerance < 0"}, exc_ensures=ATOMIC, canary="npts(self) + deg(self) > old(npts(self)) + old(deg(self))")
+
+
+def degree_clean_contract(P, W):
+    return Contract(
+        "curves.Curve.degree_clean[P=%d,W=%d]" % (P, W), setup=curve_state(P, W),
+        params={"self": "obj:BaseCurve", "tolerance": "real"}, spec=CSPEC, calls=CLEAN_CALLS,
+        loops={0: dict(invariant=[x if "npts(self) + deg(self) <=" not in x else "deg(self) <= old(deg(self))" for x in CLEAN_INV], decreases="deg(self)")},         # each successful reduction lowers the degree, which stays >= 0
+        ensures=["INV(self)", "deg(self) <= old(deg(self))"],
+        raises={"AssertionError": "tolerance < 0"}, exc_ensures=ATOMIC, canary="deg(self) > old(deg(self))")
+
+
+_new = [(knot_clean_contract(P, W), "curves", "Curve.knot_clean", None) for P in (0, 1) for W in (0, 1)]
+_new += [(degree_clean_contract(P, W), "curves", "Curve.degree_clean", None) for P in (0, 1) for W in (0, 1)]
+for _c, _m, _q, _v in _new:
+    mm = _re.search(r"P=(\d),W=(\d)", _c.name)
+    _attach(_c, _q.split(".")[-1], int(mm.group(1)), int(mm.group(2)))
+ALL += _new
+
+
+def h_clean_call(name):
+    def h(eng, st, args, kw, node, exits):
+        """self.degree_clean(tolerance=…) / self.knot_clean(tolerance=…) by the contracts proved above: AssertionError for a negative tolerance
+        (curve unchanged), otherwise INV with a degree / npts + degree that did not grow."""
+        c = args[0]
+        tol = kw.get("tolerance", args[1] if len(args) > 1 else None)
+        if tol is not None:
+            eng.raise_exc(st, "AssertionError", tol.real() < 0, node.lineno, exits)
+        old = c.fields[KVF]
+        d, n = fresh_int("deg_after_" + name), fresh_int("npts_after_" + name)
+        st.assume(d <= old.fields["degree"].z if name == "degree_clean" else n + d <= old.fields["npts"].z + old.fields["degree"].z)
+        c.fields[KVF] = new_kvobj(st, name, n, d)
+        for f, tag in ((PF, "points"), (WF_, "weights")):
+            if isinstance(c.fields[f], Seq):
+                s = E.fresh_seq(tag)
+                st.assume(s.n == n)
+                c.fields[f] = s
+        return NoneV()
+    return h
+
+
+CLEAN2_CALLS = dict(CLEAN_CALLS)
+CLEAN2_CALLS.update({"method:BaseCurve.degree_clean": CallSpec(h_clean_call("degree_clean")), "method:BaseCurve.knot_clean": CallSpec(h_clean_call("knot_clean"))})
+
+
+def clean_contract(P, W):
+    return Contract(
+        "curves.Curve.clean[P=%d,W=%d]" % (P, W), setup=curve_state(P, W), params={"self": "obj:BaseCurve", "tolerance": "real"},
+        spec=CSPEC, calls=CLEAN2_CALLS, ensures=["INV(self)", "iff(is_none(P(self)), is_none(old(P(self))))", "iff(is_none(W(self)), is_none(old(W(self))))"],
+        raises={"AssertionError": "tolerance < 0"}, exc_ensures=ATOMIC, canary="not INV(self)")
+
+
+# (with control points AND weights clean() goes on into float / numpy simplification code: outside the subset, decided by the bounded histories)
+_new = [(clean_contract(P, W), "curves", "Curve.clean", None) for P, W in ((0, 0), (0, 1), (1, 0))]
+for _c, _m, _q, _v in _new:
+    mm = _re.search(r"P=(\d),W=(\d)", _c.name)
+    _attach(_c, "clean", int(mm.group(1)), int(mm.group(2)))
 ALL += _new
